@@ -51,11 +51,11 @@ JudgeRelativize(e) ==
   ELSE IF e.k = "err" THEN <<"ok", 0>>
   ELSE IF e.k = "none" THEN
        \* "equal to the base or differing only in query/fragment is always relativised" - whenever such a reference exists
-       \* (for paths with dot segments none may exist): the candidates are the IRI's own tail, and its last segment + tail
+       \* (for paths with dot segments none may exist): the candidates are the IRI's own tail, its last segment + tail, and "./" + tail
        LET tail == From(e.iri, Len(NoQuery(e.iri)) + 1)
            p == Parse(e.iri).path
            lastseg == From(p, LastIndex(p, 47) + 1)
-           cands == {tail, lastseg \o tail}
+           cands == {tail, lastseg \o tail, <<46, 47>> \o tail}
        IN IF SameDocument(e.base, e.iri) /\ \E c \in cands : IsIriRef(c) /\ Resolve(e.base, c) = e.iri /\ LibResolve(e.base, c) = [err |-> FALSE, out |-> e.iri]
           THEN <<"none-for-same-document", 0>> ELSE <<"ok", 0>>
   ELSE IF ~IsIriRef(e.out) THEN <<"not-a-reference", 0>>
